@@ -607,7 +607,36 @@ def run_history(case, ctx, allow_queries=True, strict_queries=True):
 
 
 def body_history(case, ctx):
+    if case.get("fan"):
+        return body_fan(case, ctx)
     run_history(case, ctx, allow_queries=True)
+
+
+def body_fan(case, ctx):
+    """bounded-exhaustive batches: the history `steps` extended by every single step of
+    the named alphabet (each extension is replayed from the construction on a fresh
+    automaton; a failure reports the full extended history)"""
+    import traceback
+    from ..core import Violation
+    from ..engine import classify_exception
+    alphabet = FAN_ALPHABETS[case["fan"]]
+    ctx.label("fan=" + case["fan"])
+    for last in alphabet:
+        full = dict(nv=case["nv"], nl=case["nl"], init=case["init"],
+                    steps=list(case["steps"]) + [last])
+        try:
+            run_history(full, ctx, allow_queries=True)
+        except Violation as v:
+            v.detail["history"] = full
+            raise
+        except HarnessError:
+            raise
+        except Exception as e:
+            if classify_exception(e) != "library":
+                raise
+            ctx.fail("%s: %s (library exception in an enumerated history)"
+                     % (type(e).__name__, e), history=full,
+                     traceback=traceback.format_exc(limit=-4))
 
 
 def body_history_edits(case, ctx):
@@ -794,9 +823,9 @@ def exhaustive_alphabet(reduced=False):
                 A.append(_s("add_elist", 0, 0, t, h, 0, 0, 0, msk))
     for v in range(3):
         A.append(_s("delete_vertex", v))
-        A.append(_s("rlp", v, 1, 1, 1))
         A.append(_s("q_word", v, 0, 1, 0, 0, 0, 0, 1))       # "z" from vertex v
         if not reduced:
+            A.append(_s("rlp", v, 1, 1, 1))
             A.append(_s("add_vertices", v, v, 0))
             A.append(_s("q_nbrs", v))
             A.append(_s("rlp", v, 0, 1, 1))
@@ -825,29 +854,42 @@ EXH_INITS = [
 ]
 
 
+def _core_alphabet():
+    return [s for s in exhaustive_alphabet(True)
+            if s["op"] in ("add_edge", "delete_vertex", "q_pairs", "recurrent", "add_elist")]
+
+
+FAN_ALPHABETS = {"full": exhaustive_alphabet(False), "reduced": exhaustive_alphabet(True),
+                 "core": _core_alphabet()}
+
+
 def exhaustive_histories(tier):
-    full = exhaustive_alphabet(False)
-    red = exhaustive_alphabet(True)
+    full, red, core = FAN_ALPHABETS["full"], FAN_ALPHABETS["reduced"], FAN_ALPHABETS["core"]
     doms = []
 
-    def hist(init, steps):
-        return dict(nv=3, nl=2, init=init, steps=list(steps))
-    d2 = [hist(i, s) for i in EXH_INITS for s in itertools.product(full, repeat=2)]
+    def hist(init, steps, fan=None):
+        c = dict(nv=3, nl=2, init=init, steps=list(steps))
+        if fan:
+            c["fan"] = fan
+        return c
     d1 = [hist(i, s) for i in EXH_INITS for s in itertools.product(full, repeat=1)]
-    doms.append(("histories of depth <= 2 over 3 vertices / 2 labels, %d-step alphabet, "
+    d2 = [hist(i, s) for i in EXH_INITS for s in itertools.product(full, repeat=2)]
+    doms.append(("all histories of depth <= 2 over 3 vertices / 2 labels, %d-step alphabet, "
                  "4 constructions" % len(full), d1 + d2))
     if tier == "quick":
-        d3 = [hist(EXH_INITS[0], s) for s in itertools.product(red, repeat=3)]
-        doms.append(("histories of depth 3 from the empty automaton, %d-step alphabet"
-                     % len(red), d3))
+        d3 = [hist(EXH_INITS[0], s, "reduced") for s in itertools.product(red, repeat=2)]
+        doms.append(("all histories of depth 3 from the empty automaton, %d-step alphabet "
+                     "(one case = a depth-2 prefix extended by each of the %d steps)"
+                     % (len(red), len(red)), d3))
     else:
-        d3 = [hist(i, s) for i in EXH_INITS for s in itertools.product(full, repeat=3)]
-        doms.append(("histories of depth 3, %d-step alphabet, 4 constructions" % len(full), d3))
-        core = [s for s in red if s["op"] in ("add_edge", "delete_vertex", "q_pairs", "recurrent",
-                                              "add_elist")]
-        d4 = [hist(EXH_INITS[0], s) for s in itertools.product(core, repeat=4)]
-        doms.append(("histories of depth 4 from the empty automaton, %d-step core alphabet"
-                     % len(core), d4))
+        d3 = [hist(i, s, "full") for i in EXH_INITS for s in itertools.product(full, repeat=2)]
+        doms.append(("all histories of depth 3, %d-step alphabet, 4 constructions (one case = "
+                     "a depth-2 prefix extended by each of the %d steps)"
+                     % (len(full), len(full)), d3))
+        d4 = [hist(EXH_INITS[0], s, "core") for s in itertools.product(core, repeat=3)]
+        doms.append(("all histories of depth 4 from the empty automaton, %d-step core alphabet "
+                     "(one case = a depth-3 prefix extended by each of the %d steps)"
+                     % (len(core), len(core)), d4))
     return doms
 
 
